@@ -311,6 +311,9 @@ void error (const char *fmt, ...) {
 
   va_start (args, fmt);
   len = vsnprintf (msg, sizeof(msg)-1, fmt, args);
+  /* vsnprintf() returns the length the message would have had: a longer one was cut */
+  if (len > (int) sizeof(msg) - 2)
+    len = (int) sizeof(msg) - 2;
   if (len > 0 && msg[len-1] != '\n')
     {
       msg[len] = '\n';
